@@ -3,6 +3,7 @@
 //! with fault injection. One binary per feature configuration (std / alloc / no_std).
 
 mod choice;
+mod dynnest;
 #[cfg(not(feature = "cfg-nostd"))]
 mod costream;
 #[cfg(feature = "cfg-nostd")]
@@ -75,6 +76,7 @@ struct Slot {
     /// cancel_after_polls + 1 (0 = none)
     cancel1: AtomicU64,
     panic_at: AtomicU64,
+    closure_at: AtomicU64,
 }
 
 thread_local! {
@@ -90,6 +92,7 @@ fn slot_begin(seed: u64, f: &FaultSpec) {
             sl.seed.store(seed, Ordering::Relaxed);
             sl.cancel1.store(f.cancel_after_polls.map(|k| k as u64 + 1).unwrap_or(0), Ordering::Relaxed);
             sl.panic_at.store(f.panic_at_child_poll as u64, Ordering::Relaxed);
+            sl.closure_at.store(f.panic_at_closure_call as u64, Ordering::Relaxed);
             sl.since_ms.store(t0.elapsed().as_millis() as u64 + 1, Ordering::Release);
         }
     }
@@ -166,10 +169,11 @@ fn get<T: std::str::FromStr>(a: &BTreeMap<String, String>, k: &str, d: T) -> T {
 fn announce(seed: u64, f: &FaultSpec) {
     if ANNOUNCE.load(Ordering::Relaxed) {
         eprintln!(
-            "EXEC run_seed={} cancel={} panic={}",
+            "EXEC run_seed={} cancel={} panic={} closure={}",
             seed,
             f.cancel_after_polls.map(|k| k.to_string()).unwrap_or_else(|| "-".into()),
-            f.panic_at_child_poll
+            f.panic_at_child_poll,
+            f.panic_at_closure_call
         );
     }
 }
@@ -198,6 +202,15 @@ fn scenario(prop: &'static str, seed: u64, index: u64, sh: &Shared, local: &mut 
         }
         for j in 1..=q {
             let f = FaultSpec { panic_at_child_poll: j, ..FaultSpec::default() };
+            announce(seed, &f);
+            slot_begin(seed, &f);
+            let rr = run(prop, Choices::from_trace(trace.clone()), f, false);
+            slot_end();
+            local.crash_points += 1;
+            local.absorb(prop, seed, index, f, &rr, sh, false);
+        }
+        for j in 1..=r.closure_calls {
+            let f = FaultSpec { panic_at_closure_call: j, ..FaultSpec::default() };
             announce(seed, &f);
             slot_begin(seed, &f);
             let rr = run(prop, Choices::from_trace(trace.clone()), f, false);
@@ -320,15 +333,16 @@ fn cmd_check(a: &BTreeMap<String, String>) -> i32 {
                         let seed = sl.seed.load(Ordering::Relaxed);
                         let cancel = sl.cancel1.load(Ordering::Relaxed);
                         let panic_at = sl.panic_at.load(Ordering::Relaxed);
+                        let closure_at = sl.closure_at.load(Ordering::Relaxed);
                         let _ = std::fs::create_dir_all(&replay_dir);
                         let path = format!("{replay_dir}/{prop}-{}-hang-{seed:016x}.json", CONFIG);
                         let oracle = format!("{}.hang", prop.to_ascii_lowercase());
                         let msg = format!("one execution did not finish within {hang_secs} s of wall-clock time (endless loop or deadlock inside the code under test)");
                         let body = format!(
-                            "{{\n\"engine\":\"hang\",\n\"property\":{},\n\"oracle\":{},\n\"config\":{},\n\"run_seed\":\"{}\",\n\"cancel\":{},\n\"panic\":\"{}\",\n\"message\":{},\n\"replay_cmd\":{}\n}}\n",
+                            "{{\n\"engine\":\"hang\",\n\"property\":{},\n\"oracle\":{},\n\"config\":{},\n\"run_seed\":\"{}\",\n\"cancel\":{},\n\"panic\":\"{}\",\n\"closure\":\"{}\",\n\"message\":{},\n\"replay_cmd\":{}\n}}\n",
                             json::s(prop), json::s(&oracle), json::s(CONFIG), seed,
                             if cancel == 0 { "\"-\"".to_string() } else { format!("\"{}\"", cancel - 1) },
-                            panic_at, json::s(&msg), json::s(&format!("/verif/check replay {path}"))
+                            panic_at, closure_at, json::s(&msg), json::s(&format!("/verif/check replay {path}"))
                         );
                         let _ = std::fs::write(&path, body);
                         println!("FOUND property={} oracle={} key=hang replay={}", prop, oracle, path);
@@ -502,11 +516,12 @@ fn cmd_exec(a: &BTreeMap<String, String>) -> i32 {
     let f = FaultSpec {
         cancel_after_polls: a.get("cancel").and_then(|v| v.parse().ok()),
         panic_at_child_poll: get(a, "panic", 0),
+        panic_at_closure_call: get(a, "closure", 0),
         no_faults: false,
     };
     // the crash points of a scenario are re-executions of the fault-free run's choice trace
     let r0 = run(prop, Choices::from_seed(seed), FaultSpec::default(), false);
-    let r = if f.cancel_after_polls.is_none() && f.panic_at_child_poll == 0 {
+    let r = if f.cancel_after_polls.is_none() && f.panic_at_child_poll == 0 && f.panic_at_closure_call == 0 {
         r0
     } else {
         run(prop, Choices::from_trace(r0.trace.iter().map(|x| x.1).collect()), f, a.contains_key("verbose"))
